@@ -179,6 +179,9 @@ func oracleClient(st *step) *verdict {
 		if len(changed) != 0 {
 			return &verdict{whatCollateral, "client Get changed the backend"}
 		}
+		if good && h[1] == "1" && st.reply == "err 13 size" {
+			return &verdict{whatD10, fmt.Sprintf("Get of the intact %d byte object: reply %q", size, st.reply)}
+		}
 		if good != (st.reply == "ok "+hexs(stored)) || (!good && strings.HasPrefix(st.reply, "ok")) {
 			return &verdict{whatClient, fmt.Sprintf("Get of %x (present=%v): reply %q", stored, present, st.reply)}
 		}
